@@ -199,8 +199,10 @@ class Executor2(Executor):
     def assign(self, st, target, v, ln):
         if self.lenient and not self.spec:
             if isinstance(target, ast.Subscript):
-                # x[k] = v on unmodelled containers: evaluate for effects, abstract the store
-                self.ev(target.value, st)
+                base = self.ev(target.value, st)
+                if base.kind.startswith("map:") or base.kind == "lenlist":
+                    return self.assign_subscript(st, target, v, ln)
+                # x[k] = v on an unmodelled container: evaluated for effects, store abstracted
                 return
             if isinstance(target, (ast.Tuple, ast.List)) and v.kind != "tuple":
                 for t in target.elts:
@@ -248,6 +250,15 @@ class Executor2(Executor):
             return I
         return Executor._field_sort(self, f)
 
+    def assign_subscript(self, st, target, v, ln):
+        base = self.ev(target.value, st)
+        if base.kind == "lenlist":
+            idx = self.ev(target.slice, st)
+            if idx.kind == "int":
+                self.oblige(st, z3.And(idx.t < base.t, idx.t >= -base.t), "no-IndexError[store]", ln, kind="safety")
+            return
+        return Executor.assign_subscript(self, st, target, v, ln)
+
     def lenlist_method(self, st, lv, name, args, ln):
         obj, attr, key = lv.x if lv.x else (None, None, None)
         cur = lv.t
@@ -283,6 +294,15 @@ class Executor2(Executor):
             return NoneV()
         if name in ("index", "count", "copy", "__contains__"):
             return self.opaque()
+        if name in ("sort", "reverse"):
+            return NoneV()
+        if name == "remove":
+            # list.remove(x): raises ValueError when absent (abstracted membership), else one shorter
+            x = st.copy()
+            self.pending_raises.append(Exit("raise", x, exc="ValueError", lineno=ln))
+            st.assume(cur > 0)
+            store(cur - 1)
+            return NoneV()
         raise Unsupported("list method %s on a length-only list" % name)
 
     def bi_len(self, e, st):
